@@ -66,7 +66,13 @@ def _run_stage(g, stage, payload):
 def _eval(col, intg, g, origin):
     classes = gg.classify(intg)
     payload = ("plain", "bytecode")[len(g) % 2]
-    for stage in ("branch", "restructure"):
+    from vpbt.core import h64
+
+    # the two public ways through the pipeline, plus one of the histories (level-wise drivers, write/read between the
+    # stages, restructure() after restructure_loop()) - none may raise
+    for stage in ("branch", "restructure", ("levelwise", "reload", "reentrant")[h64(gg.gkey(g)) % 3]):
+        if len(g) > 120 and stage not in ("branch", "restructure"):
+            continue
         r = _run_stage(g, stage, payload)
         col.count("stage_evaluations")
         if r is None:
